@@ -17,8 +17,9 @@ from corankco.element import Element
 
 try:
     import cplex
-except ImportError:
-    pass
+    _CPLEX_IMPORT_ERROR = None
+except ImportError as import_error:
+    _CPLEX_IMPORT_ERROR = import_error
 
 
 class ExactAlgorithmCplex(ExactAlgorithmBase, PairwiseBasedAlgorithm):
@@ -43,7 +44,10 @@ class ExactAlgorithmCplex(ExactAlgorithmBase, PairwiseBasedAlgorithm):
 
         :param optimize: Boolean for whether to check necessary conditions in order to add constraints. Default is True.
         WARNING: if optimize = True, then, we cannot ensure that all the optimal consensus will be returned
+        :raise ImportError: if the cplex module could not be imported
         """
+        if _CPLEX_IMPORT_ERROR is not None:
+            raise ImportError("ExactAlgorithmCplex needs the cplex module") from _CPLEX_IMPORT_ERROR
         ExactAlgorithmBase.__init__(self, optimize)
 
     def compute_consensus_rankings(
